@@ -31,9 +31,7 @@ func isMutexCall(in ssa.Instruction) (string, bool) {
 
 func ruleNatsRemoveBeforeInvoke(c *Ctx) {
 	p := c.P
-	fReqs := p.Field("nats.Client.mqReqs")
-	fF := p.Field("nats.responseCont.f")
-	fIsReq := p.Field("nats.responseCont.isReq")
+	fReqs, fF, fIsReq := natsRoles(p)
 	parseMeta := p.Method("nats.Client.parseMeta")
 	if fReqs == nil || fF == nil || fIsReq == nil {
 		c.undecided("nats.Client.mqReqs", "anchor", "-", "not found")
@@ -824,16 +822,37 @@ func ruleTempConn(c *Ctx) {
 			bad = "exit without the callback must dispose the temporary connection and release the waiting handler exactly once: " + tr.FmtPath(path)
 		}
 	}
-	// 2. the response writer closure: every path disposes and closes exactly once
-	var rs *ssa.Function
-	for _, a := range fn.AnonFuncs {
-		if len(a.Params) == 4 {
-			rs = a
+	// 2. the response writer handed to the callback (a closure or a bound method): every path disposes and closes exactly once
+	var writers []*ssa.Function
+	for _, g := range p.withHelpers(fn) {
+		for _, call := range callsIn(g) {
+			com := call.Common()
+			if com.IsInvoke() || com.StaticCallee() != nil {
+				continue
+			}
+			if _, isB := com.Value.(*ssa.Builtin); isB {
+				continue
+			}
+			for _, a := range com.Args {
+				for _, wf := range p.closuresHeld(a, 0) {
+					if wf.Synthetic != "" {
+						if m := boundMethod(wf); m != nil {
+							if f2 := p.SSA.FuncValue(m); f2 != nil {
+								wf = f2
+							}
+						}
+					}
+					if p.isRepoFn(wf) && wf.Signature.Params().Len() >= 3 {
+						writers = append(writers, wf)
+					}
+				}
+			}
 		}
 	}
-	if rs == nil {
-		bad = "response writer closure not found"
-	} else {
+	if len(writers) == 0 {
+		bad = "response writer handed to the request callback not found"
+	}
+	for _, rs := range writers {
 		tr2 := runTrace(p, rs, sp)
 		for _, path := range tr2.Paths {
 			if countKind(path, "dispose") != 1 || countKind(path, "close(done)") != 1 {
@@ -845,4 +864,48 @@ func ruleTempConn(c *Ctx) {
 		}
 	}
 	c.check(bad == "", fnName(fn), "temporary connection disposed and the HTTP handler released exactly once on every exit", p.Pos(fn.Pos()), fmt.Sprintf("%d paths", len(tr.Paths)), bad)
+}
+
+
+// natsRoles resolves the adapter's pending-request bookkeeping by role rather
+// than by name: the map of pending entries, and in its element type the
+// completion (the field of type mq.Response) and the request flag (the bool).
+func natsRoles(p *Prog) (reqs, completion, isReq *types.Var) {
+	reqs = p.Field("nats.Client.mqReqs")
+	if reqs == nil {
+		// the only map-typed field of Client whose values point to a struct holding an mq.Response
+		if n := p.Named("nats.Client"); n != nil {
+			st := n.Underlying().(*types.Struct)
+			for i := 0; i < st.NumFields(); i++ {
+				if _, ok := st.Field(i).Type().Underlying().(*types.Map); ok {
+					reqs = st.Field(i)
+				}
+			}
+		}
+	}
+	if reqs == nil {
+		return
+	}
+	m, ok := reqs.Type().Underlying().(*types.Map)
+	if !ok {
+		return
+	}
+	et := m.Elem()
+	if pt, ok := et.(*types.Pointer); ok {
+		et = pt.Elem()
+	}
+	st, ok := et.Underlying().(*types.Struct)
+	if !ok {
+		return
+	}
+	for i := 0; i < st.NumFields(); i++ {
+		f := st.Field(i)
+		if _, isSig := f.Type().Underlying().(*types.Signature); isSig {
+			completion = f
+		}
+		if b, isB := f.Type().Underlying().(*types.Basic); isB && b.Kind() == types.Bool {
+			isReq = f
+		}
+	}
+	return
 }
